@@ -55,11 +55,14 @@ func Verif_C37_ForwardAcceptInterleaved() {
 	}
 	for t := range ls {
 		verifrt.Assert(ls[t].Close() == nil, "Close returns nil when the peer grants the cancel request")
+		verifrt.Assert(len(cl.forwards.entries) == len(ls)-1-t, "Close unregisters the listener")
 		for _, nc := range queued[t] {
 			_, err := ls[t].Accept()
 			verifrt.Assert(err == c37ErrAccept && nc.accepts == 1, "forwards queued before Close are still handed out in order")
 		}
-		_, err := ls[t].Accept()
+		var err error
+		returned := c37Watch(func() { _, err = ls[t].Accept() })
+		verifrt.Assert(returned, "Accept after Close returns")
 		verifrt.Assert(err == io.EOF, "Accept after Close returns io.EOF")
 	}
 	verifrt.Assert(len(cl.forwards.entries) == 0, "both listeners are unregistered")
